@@ -23,6 +23,12 @@ func MRZCheckDigit(s string) byte {
 // MakeTD3MRZ builds an 88 character TD3 (passport) MRZ for the given issuing
 // state (alpha-3) with fixed holder data and correct check digits.
 func MakeTD3MRZ(issuingState, docNumber string) string {
+	return MakeTD3MRZNat(issuingState, issuingState, docNumber)
+}
+
+// MakeTD3MRZNat: as MakeTD3MRZ with a nationality that may differ from the issuing state (travel documents of
+// organisations: UNO, XOM, EUE ... have no country of their own).
+func MakeTD3MRZNat(issuingState, nationality, docNumber string) string {
 	pad := func(s string, n int) string {
 		if len(s) >= n {
 			return s[:n]
@@ -33,7 +39,7 @@ func MakeTD3MRZ(issuingState, docNumber string) string {
 	doc := pad(docNumber, 9)
 	dob, exp := "740812", "120415"
 	personal := pad("ZE184226B", 14)
-	l2 := doc + string(MRZCheckDigit(doc)) + pad(issuingState, 3) + dob + string(MRZCheckDigit(dob)) + "F" + exp + string(MRZCheckDigit(exp)) + personal + string(MRZCheckDigit(personal))
+	l2 := doc + string(MRZCheckDigit(doc)) + pad(nationality, 3) + dob + string(MRZCheckDigit(dob)) + "F" + exp + string(MRZCheckDigit(exp)) + personal + string(MRZCheckDigit(personal))
 	composite := l2[0:10] + l2[13:20] + l2[21:43]
 	l2 += string(MRZCheckDigit(composite))
 	return line1 + l2
